@@ -409,7 +409,9 @@ namespace awkward {
     }
 
     if (!begun_  &&
-        ((check  &&  name_ == name)  ||  (!check  &&  nameptr_ == name))) {
+        ((check  &&  name != nullptr  &&  nameptr_ != nullptr  &&  name_ == name)  ||
+         (check  &&  name == nullptr  &&  nameptr_ == nullptr)  ||
+         (!check  &&  nameptr_ == name))) {
       begun_ = true;
       nextindex_ = -1;
       nexttotry_ = 0;
